@@ -123,14 +123,22 @@ def respond(T, method: str, reqs: List[Any], n_out: int) -> List[Any]:
     return [T["Empty"]() for _ in range(n_out)]
 
 
+import logging
+logging.getLogger("grpclib.server").setLevel(logging.CRITICAL)  # the 'err-plain' outcome is logged by grpclib
+
+ERR_MESSAGE = {"err-unicode": "boom: é ☃ \U0001F600 100%"}
+
+
 def make_service(main, T, outcome: str, n_out: int, record: List[Tuple[str, List[Any]]], svc: str = "Main"):
     Base = getattr(main, svc + "Base")
     names = py_method_names(main)
 
     def err():
+        if outcome == "err-plain":
+            return ValueError("boom:" + outcome)  # not a GRPCError: the caller must see UNKNOWN, not a hang
         status = {"err-not-found": Status.NOT_FOUND, "err-invalid": Status.INVALID_ARGUMENT,
-                  "err-internal": Status.INTERNAL}[outcome]
-        return grpclib.GRPCError(status, "boom:" + outcome)
+                  "err-internal": Status.INTERNAL, "err-unicode": Status.FAILED_PRECONDITION}[outcome]
+        return grpclib.GRPCError(status, ERR_MESSAGE.get(outcome, "boom:" + outcome))
 
     ns: Dict[str, Any] = {}
     for m, (_, cstream, sstream, _, _) in METHODS.items():
@@ -305,10 +313,11 @@ async def one_case(case: Dict[str, Any]) -> List[Tuple[str, str]]:
         out.append(("request-differs", f"{m}: handler saw {mine[0][1]!r}, caller sent {want_reqs!r}"[:400]))
     if outcome.startswith("err"):
         want_status = {"err-not-found": Status.NOT_FOUND, "err-invalid": Status.INVALID_ARGUMENT,
-                       "err-internal": Status.INTERNAL}[outcome]
+                       "err-internal": Status.INTERNAL, "err-unicode": Status.FAILED_PRECONDITION,
+                       "err-plain": Status.UNKNOWN}[outcome]
         if raised is None or raised.status != want_status:
             out.append(("status", f"{m}: handler raised {want_status}, caller got {got!r} / {raised!r}"[:300]))
-        elif raised.message != "boom:" + outcome:
+        elif outcome != "err-plain" and raised.message != ERR_MESSAGE.get(outcome, "boom:" + outcome):
             out.append(("status-message", f"{m}: message {raised.message!r}"))
         elif sstream:
             before = getattr(raised, "partial_responses", [])
@@ -445,7 +454,7 @@ def cases(tier: str) -> List[Dict[str, Any]]:
                     for as_async in ((False, True, "channel") if cstream else (False,)):
                         out.append({"kind": "call", "method": m, "req_idx": list(idx), "n_out": nout,
                                     "outcome": "normal", "as_async": as_async})
-        for outcome in ("err-not-found", "err-invalid", "err-internal", "not-overridden"):
+        for outcome in ("err-not-found", "err-invalid", "err-internal", "err-unicode", "err-plain", "not-overridden"):
             for nout in (0, 2) if sstream else (1,):
                 out.append({"kind": "call", "method": m, "req_idx": [1] if not cstream else [0, 1], "n_out": nout,
                             "outcome": outcome, "as_async": False})
